@@ -162,8 +162,8 @@ Definition with_cblog (s : state) (x : list cbev) : state := mkState (height s) 
 Definition with_g_out (s : state) (x : list (reqid*Z)) : state := mkState (height s) (time s) (iidx s) (led s) (defs s) (binds s) (owners s) (waddr s) (rates s) (ctxs s) (reqs s) (vols s) (earned s) (oearned s) (newq s) (newmark s) (expq s) (expmark s) (cblog s) x (g_batches s).
 Definition with_g_batches (s : state) (x : list (ctxid*Z*Z)) : state := mkState (height s) (time s) (iidx s) (led s) (defs s) (binds s) (owners s) (waddr s) (rates s) (ctxs s) (reqs s) (vols s) (earned s) (oearned s) (newq s) (newmark s) (expq s) (expmark s) (cblog s) (g_out s) x.
 
-Definition init (t0 : Z) (l0 : ledger) : state :=
-  mkState 2 t0 0 l0 [] [] [] [] [] [] [] [] [] [] [] [] [] [] [] [] [].
+Definition init (h0 t0 : Z) (l0 : ledger) : state :=
+  mkState h0 t0 0 l0 [] [] [] [] [] [] [] [] [] [] [] [] [] [] [] [] [].
 
 Inductive res := Okk (s : state) | Rejj | Abortt.
 
@@ -196,7 +196,15 @@ Fixpoint coins_sub_aux (a b : list (Z * Z)) : option (list (Z * Z)) :=
   end.
 Definition coins_sub (a b : list (Z * Z)) : option (list (Z * Z)) :=
   if forallb (fun e => has (fst e) a || (snd e =? 0)) b then coins_sub_aux a b else None.
-Definition coins_add (d x : Z) (l : list (Z * Z)) : list (Z * Z) := set d (getz d l + x) l.
+(** [sdk.Coins.Add] of one coin: coin sets are kept sorted by denom (denom indices are chosen in
+    the order of the denom names) *)
+Fixpoint coins_add (d x : Z) (l : list (Z * Z)) : list (Z * Z) :=
+  match l with
+  | [] => [(d, x)]
+  | (d', y) :: r => if d =? d' then (d, y + x) :: r
+                    else if d <? d' then (d, x) :: l
+                    else (d', y) :: coins_add d x r
+  end.
 
 Fixpoint debit_all (l : ledger) (a : Z) (cs : list (Z * Z)) : option ledger :=
   match cs with
@@ -207,6 +215,13 @@ Fixpoint credit_all (l : ledger) (a : Z) (cs : list (Z * Z)) : ledger :=
   match cs with [] => l | (d, x) :: r => credit_all (credit l a d x) a r end.
 Definition send_all (l : ledger) (from to : Z) (cs : list (Z * Z)) : option ledger :=
   match debit_all l from cs with Some l' => Some (credit_all l' to cs) | None => None end.
+(** bank.subUnlockedCoins outside a transaction: coin by coin, in denom order; on the first
+    insufficient denom it stops with an error and the coins already subtracted stay subtracted *)
+Fixpoint debit_seq (l : ledger) (a : Z) (cs : list (Z * Z)) : ledger * bool :=
+  match cs with
+  | [] => (l, true)
+  | (d, x) :: r => match debit l a d x with Some l' => debit_seq l' a r | None => (l, false) end
+  end.
 
 (** queues: store keys (height ‖ context id), a set *)
 Definition q_add (e : Z * ctxid) (q : list (Z * ctxid)) : list (Z * ctxid) :=
@@ -681,7 +696,8 @@ Fixpoint mk_requests (s : state) (x : context) (id : ctxid) (batch : Z) (i : Z) 
                       | Some b => (b_pd b, get_price b (time s) (getz (x_cons x, x_svc x, p) (vols s)))
                       | None => (BASE, 0)
                       end in
-    ((id, batch, height s, i), mkReq p fd fee (height s) (height s + x_timeout x) true 0)
+    (* a zero fee is the empty coin set: it carries no denom *)
+    ((id, batch, height s, i), mkReq p (if fee =? 0 then BASE else fd) fee (height s) (height s + x_timeout x) true 0)
       :: mk_requests s x id batch (i + 1) r
   end.
 
@@ -722,9 +738,10 @@ Definition new_batch_handler (s : state) (id : ctxid) : state :=
       | Some (ps, tot) =>
         let n := Z.of_nat (length ps) in
         if (0 <? n) && (x_thr x <=? n) then
-          match send_all (led s) (x_cons x) REQ tot with
-          | None => dequeue_new (on_paused s id x) id
-          | Some l => dequeue_new (initiate (with_led s l) id x ps) id
+          (* DeductServiceFees; unfixed code: a partial debit survives the error (no rollback in the end blocker) *)
+          match debit_seq (led s) (x_cons x) tot with
+          | (l, false) => dequeue_new (on_paused (with_led s l) id x) id
+          | (l, true) => dequeue_new (initiate (with_led s (credit_all l REQ tot)) id x ps) id
           end
         else dequeue_new (skip_batch s id x) id
       end
